@@ -67,3 +67,25 @@ def apply_tasks(tier: str, seed: int, cap=None, orders=None) -> List[dict]:
                                  max_paths=1500 if tier == "quick" else 6000,
                                  timeout_ms=4000 if tier == "quick" else 20000))
     return tasks
+
+
+def reapply_tasks(tier: str, seed: int, cap=None) -> List[dict]:
+    """the same Operator object applied twice in a row (the second time to the state it has just returned); oracle =
+    the call semantics composed with itself.  Programs with a numeric effect (whose right-hand sides, conditions and
+    universally quantified effects must be read from the second pre-state, not from anything the operator kept)."""
+    cap = cap or (8 if tier == "quick" else 10)
+    tasks = []
+    seen = 0
+    for pl, const, eff, origin in eff_programs(tier, seed):
+        text_eff = render(eff)
+        if not any(k in text_eff for k in ("(increase", "(decrease", "(assign")):
+            continue
+        seen += 1
+        if tier == "quick" and seen % 3:
+            continue
+        params = G.PARAM_LISTS[pl]
+        text = G.domain_text([("act", params, ["and"], eff)], const=const)
+        for args in G.arg_tuples(params, const, limit=1 if tier == "quick" else 2):
+            tasks.append(_mk(text, args, "reapply", "TWICE " + text_eff, cap=cap, origin=origin, const=const, order=None,
+                             max_paths=1500 if tier == "quick" else 4000, timeout_ms=4000 if tier == "quick" else 20000))
+    return tasks
